@@ -2,7 +2,7 @@
    and the connection check; the iterative stages of ihu are not modelled, see DESIGN.md). *)
 From Coq Require Import List Arith ZArith Bool.
 Import ListNotations.
-From PF Require Import Arr Net Elev ElevSpec Upscale UpscaleSpec UpscaleId.
+From PF Require Import Arr Net Elev ElevSpec Upscale UpscaleSpec UpscaleId UpscaleLoopfree.
 
 (* shape: with nrow = ceil(subnrow/s), ncol = ceil(subncol/s) every fine pixel has a coarse cell inside the raster *)
 Theorem coarse_shape_covers : forall subnrow subncol cs subidx, 0 < cs -> 0 < subncol -> subidx < subnrow * subncol ->
@@ -123,8 +123,71 @@ Theorem eam_plus_scale1 : forall sds upa subnrow subncol ea, 0 < subncol -> leng
 Proof. exact UpscaleId.eam_plus_scale1. Qed.
 Print Assumptions eam_plus_scale1.
 
+(* LOOP-FREE COARSE NETWORKS (methods eam and eam_plus).  When the upstream area is positive on the fine network and strictly
+   larger at the downstream pixel (true of every accumulation of positive cell areas; a user-supplied field need not be),
+   every coarse link either is a coarse pit or leads to a cell whose representative pixel (eam) / outlet pixel (eam_plus)
+   has a strictly larger upstream area.  Hence a chain of k >= 1 links that stays inside the coarse raster and returns to
+   its start passes a coarse pit: there are no cycles other than the self-links of pits. *)
+Theorem eam_link_increases : forall sds upa subncol cs nrow ncol ea,
+  (forall t, t < length sds -> sd sds t < length sds -> sd sds (sd sds t) < length sds) ->
+  (forall t, t < length sds -> sd sds t < length sds -> (0 < nth t upa 0)%Z) ->
+  (forall t, t < length sds -> sd sds t < length sds -> sd sds t <> t -> (nth t upa 0 < nth (sd sds t) upa 0)%Z) ->
+  let rep := repcell sds upa subncol cs nrow ncol (eaf ea) in
+  forall idx0, idx0 < nrow * ncol -> let s := nth idx0 rep (length sds) in s < length sds ->
+  let r := eam_walk sds subncol cs nrow ncol ea (S (length sds)) idx0 s in r < nrow * ncol ->
+  r = idx0 \/ (nth r rep (length sds) < length sds /\ (nth s upa 0 < nth (nth r rep (length sds)) upa 0)%Z).
+Proof. exact UpscaleLoopfree.eam_link_increases. Qed.
+Print Assumptions eam_link_increases.
+
+Theorem eam_loopfree : forall sds upa subncol cs nrow ncol ea,
+  (forall t, t < length sds -> sd sds t < length sds -> sd sds (sd sds t) < length sds) ->
+  (forall t, t < length sds -> sd sds t < length sds -> (0 < nth t upa 0)%Z) ->
+  (forall t, t < length sds -> sd sds t < length sds -> sd sds t <> t -> (nth t upa 0 < nth (sd sds t) upa 0)%Z) ->
+  forall idx k, idx < nrow * ncol -> nth idx (repcell sds upa subncol cs nrow ncol (eaf ea)) (length sds) < length sds -> 1 <= k ->
+  (forall j, j <= k -> citer sds upa subncol cs nrow ncol ea j idx < nrow * ncol) ->
+  citer sds upa subncol cs nrow ncol ea k idx = idx ->
+  exists j, j < k /\ cnext sds upa subncol cs nrow ncol ea (citer sds upa subncol cs nrow ncol ea j idx) = citer sds upa subncol cs nrow ncol ea j idx.
+Proof. exact UpscaleLoopfree.eam_loopfree. Qed.
+Print Assumptions eam_loopfree.
+
+(* cnext / citer are the coarse network returned by the method: *)
+Example cnext_is_eam_nextidx : forall sds upa subncol cs nrow ncol ea idx,
+  cnext sds upa subncol cs nrow ncol ea idx =
+  nth idx (eam_nextidx sds subncol cs nrow ncol ea (repcell sds upa subncol cs nrow ncol (eaf ea))) (nrow * ncol).
+Proof. reflexivity. Qed.
+
+Theorem eam_plus_loopfree : forall sds upa subncol cs nrow ncol ea,
+  (forall t, t < length sds -> sd sds t < length sds -> sd sds (sd sds t) < length sds) ->
+  (forall t, t < length sds -> cellof subncol cs ncol t < nrow * ncol) ->
+  (forall t, t < length sds -> sd sds t < length sds -> (0 < nth t upa 0)%Z) ->
+  (forall t, t < length sds -> sd sds t < length sds -> sd sds t <> t -> (nth t upa 0 < nth (sd sds t) upa 0)%Z) ->
+  (forall idx s, s < length sds -> out_walk sds subncol cs ncol (S (length sds)) idx s <= length sds) ->
+  forall idx k, idx < nrow * ncol -> nth idx (repcell sds upa subncol cs nrow ncol (eaf ea)) (length sds) < length sds -> 1 <= k ->
+  (forall j, j <= k -> piter sds upa subncol cs nrow ncol ea j idx < nrow * ncol) ->
+  piter sds upa subncol cs nrow ncol ea k idx = idx ->
+  exists j, j < k /\ pnext sds upa subncol cs nrow ncol ea (piter sds upa subncol cs nrow ncol ea j idx) = piter sds upa subncol cs nrow ncol ea j idx.
+Proof. exact UpscaleLoopfree.eam_plus_loopfree. Qed.
+Print Assumptions eam_plus_loopfree.
+
+Example pnext_is_ihu_nextidx : forall sds upa subncol cs nrow ncol ea idx,
+  pnext sds upa subncol cs nrow ncol ea idx =
+  nth idx (ihu_nextidx sds subncol cs nrow ncol ea
+             (ihu_outlets sds subncol cs nrow ncol (repcell sds upa subncol cs nrow ncol (eaf ea)))) (nrow * ncol).
+Proof. reflexivity. Qed.
+
 (* non-vacuity: a 2x4 raster draining east along the top row, scale factor 2 *)
 Example upscale_example :
   up_eam_plus [1; 2; 3; 3; 0; 1; 2; 3]%nat [1; 3; 5; 8; 1; 1; 1; 1]%Z 2 4 2 [true; true; true; true; true; true; true; true]
   = ([1; 1]%nat, [1; 3]%nat, (1, 2)%nat).
 Proof. vm_compute. reflexivity. Qed.
+
+(* the hypotheses of the loop-freeness theorems are satisfiable: the same raster with an upstream area that is positive
+   and strictly increasing downstream *)
+Example increasing_area_example :
+  let sds := [1; 2; 3; 3; 0; 1; 2; 3]%nat in let upa := [2; 3; 5; 9; 1; 1; 1; 1]%Z in
+  (forall t, t < length sds -> sd sds t < length sds -> (0 < nth t upa 0)%Z) /\
+  (forall t, t < length sds -> sd sds t < length sds -> sd sds t <> t -> (nth t upa 0 < nth (sd sds t) upa 0)%Z).
+Proof.
+  cbv zeta. split; intros t Ht; cbn [length] in Ht;
+    (do 8 (destruct t as [|t]; [vm_compute; intros; try reflexivity; try congruence|])); exfalso; apply (Nat.lt_irrefl 8); do 8 apply Nat.succ_lt_mono in Ht; inversion Ht.
+Qed.
